@@ -99,3 +99,19 @@ package scan
 //@       result.mint == opts.Start.UnixMilli() && result.maxt == opts.End.UnixMilli() &&
 //@       result.step == opts.Step.Milliseconds() && result.currentStep == opts.Start.UnixMilli() &&
 //@       result.numSteps == stepsOf(opts) && result.val == val && result.vectorPool == pool && result.once == 0
+
+// selectPoints (C03, C19): the points handed to a range function never contain a staleness marker
+// and lie inside the window; storage failures surface (C15).
+//@ func selectPoints
+//@   requires it != nil && mint <= maxt
+//@   requires buf_inv(it.bn, it.bT, it.bcur, it.blo, it.blastSeek, it.bdelta) && maxt >= it.blastSeek
+//@   requires previous-window-clean: forall p in 0..len(out) :: !isstale(out[p].V) && out[p].T <= maxt
+//@   requires previous-window-sorted: forall p in 0..len(out) :: forall q in p+1..len(out) :: out[p].T < out[q].T
+//@   ensures[C15] storage-error-surfaces: it.bfailed ==> result1 != nil
+//@   ensures[C03,C19] no-staleness-marker-in-window: result1 == nil ==> forall p in 0..len(result0) :: !isstale(result0[p].V)
+//@   ensures[C03] points-inside-window: result1 == nil ==> forall p in 0..len(result0) :: old(mint) <= result0[p].T && result0[p].T <= maxt
+//@   loop 0 invariant 0 <= drop && drop < len(out) && (forall p in 0..drop :: out[p].T < mint)
+//@   loop 1 invariant out-not-stale: forall p in 0..len(out) :: !isstale(out[p].V)
+//@   loop 1 invariant out-in-window: forall p in 0..len(out) :: old(mint) <= out[p].T && out[p].T <= maxt
+//@   loop 1 invariant scan-state: buf != nil && buf.rnext >= 0 && mint >= old(mint) && buf.rT == it.bT && buf.rV == it.bV && buf.rend == it.bcur &&
+//@       (forall j in 0..it.bcur :: it.bT[j] < maxt)
